@@ -15,6 +15,8 @@ SHAPEMODS = ['regions.shapes.circle', 'regions.shapes.ellipse', 'regions.shapes.
 def shims(m):
     m.shim(BB, '_is_int', symx.sym_is_int)
     m.shim(BB, 'int', symx.sint)
+    m.shim(BB, 'float', symx.sfloat)
+    m.shim(BB, 'np', kernels.NPFacade())
     for mod in SHAPEMODS:
         m.shim(mod, 'float', symx.sfloat)
     kernels.install(m)
@@ -408,6 +410,78 @@ class _Recorded(Exception):
     pass
 
 
+def h_polygon_plumbing(variant, m):
+    """polygon masks: the kernel receives the pixel-edge grid of the bounding box and the
+    CURRENT vertices (also after re-assignment / with a constructor origin)"""
+    from regions import PolygonPixelRegion, PixCoord
+    m.shim(BB, '_is_int', symx.sym_is_int)
+    m.shim(BB, 'int', symx.sint)
+    m.shim('regions.shapes.polygon', 'float', symx.sfloat)
+    if m.sym:
+        m.shim('regions.shapes.polygon', 'np', kernels.NPFacade())
+    rec = {}
+
+    def recorder(xmin, xmax, ymin, ymax, nx, ny, vx, vy, use_exact, subpixels):
+        rec.update(xmin=xmin, xmax=xmax, ymin=ymin, ymax=ymax, nx=nx, ny=ny, vx=vx, vy=vy, use_exact=use_exact,
+                   subpixels=subpixels)
+        raise _Recorded()
+    m.shim('regions.shapes.polygon', 'polygonal_overlap_grid', recorder, both=True)
+    dt = object if m.sym else float
+    cx, cy = m.real('vx0'), m.real('vy0')
+    vx = [cx] + [cx + m.real(f'ex{i}') for i in (1, 2)]
+    vy = [cy] + [cy + m.real(f'ey{i}') for i in (1, 2)]
+    if variant == 'plain':
+        reg = PolygonPixelRegion(PixCoord(np.array(vx, dtype=dt), np.array(vy, dtype=dt)))
+    elif variant == 'origin':
+        ox, oy = m.real('ox'), m.real('oy')
+        reg = PolygonPixelRegion(PixCoord(np.array([x - ox for x in vx], dtype=dt), np.array([y - oy for y in vy], dtype=dt)),
+                                 origin=PixCoord(ox, oy))
+    else:
+        ax, ay = m.real('ax'), m.real('ay')
+        reg = PolygonPixelRegion(PixCoord(np.array([ax, ax + 1, ax], dtype=dt), np.array([ay, ay, ay + 2], dtype=dt)))
+        reg.bounding_box
+        reg.vertices = PixCoord(np.array(vx, dtype=dt), np.array(vy, dtype=dt))
+    bb = reg.bounding_box
+    try:
+        reg.to_mask(mode='subpixels', subpixels=3)
+        m.require('kernel is called', False)
+    except _Recorded:
+        pass
+    m.require('grid extent = pixel edges of the bounding box (absolute coordinates)',
+              And(rec['xmin'] == bb.ixmin - 0.5, rec['xmax'] == bb.ixmax - 0.5,
+                  rec['ymin'] == bb.iymin - 0.5, rec['ymax'] == bb.iymax - 0.5))
+    m.require('grid size = box shape', And(rec['nx'] == bb.ixmax - bb.ixmin, rec['ny'] == bb.iymax - bb.iymin))
+    kvx = list(np.asarray(rec['vx'], dtype=object).reshape(-1))
+    kvy = list(np.asarray(rec['vy'], dtype=object).reshape(-1))
+    m.require('kernel receives the current vertices', len(kvx) == 3 and len(kvy) == 3 and
+              And(*[And(kvx[i] == vx[i], kvy[i] == vy[i]) for i in range(3)]))
+    m.require('sub-sampling mode and factor', rec['use_exact'] == 0 and rec['subpixels'] == 3)
+
+
+def h_compound_modes(m):
+    """compound / annulus masks: a component without a mask (point) makes the compound mask
+    raise NotImplementedError; non-centre modes raise NotImplementedError; the include flag
+    does not enter the mask"""
+    from regions import CirclePixelRegion, PointPixelRegion, PixCoord
+    shims(m)
+    _compound_shims(m)
+    cx, cy = m.real('cx'), m.real('cy')
+    a = CirclePixelRegion(PixCoord(cx, cy), m.pos('r', hi=0.5))
+    p = PointPixelRegion(PixCoord(cx, cy))
+    for comp in (a | p, p & a):
+        try:
+            comp.to_mask(mode='center')
+            m.require('compound with a point component: to_mask raises NotImplementedError', False)
+        except NotImplementedError:
+            m.require('compound with a point component: to_mask raises NotImplementedError', True)
+    for mode in ('subpixels', 'exact'):
+        try:
+            (a | a).to_mask(mode=mode, subpixels=2)
+            m.require(f'compound mask in {mode} mode raises NotImplementedError', False)
+        except NotImplementedError:
+            m.require(f'compound mask in {mode} mode raises NotImplementedError', True)
+
+
 def h_ellipse_kernel(n, m):
     """kernel lemma (ellipse, sub-sampling): on one pixel the sub-pixel routine counts exactly
     the n x n sample centres that are strictly inside the origin-centred rotated ellipse"""
@@ -450,7 +524,11 @@ def harnesses(tier):
     hs.append(('circle/center/r<1', P(h_circle, 'center', 1, 1)))
     hs.append(('circle/subpixels1/r<1', P(h_circle, 'subpixels', 1, 1)))
     hs.append(('circle/subpixels2/r<1', P(h_circle, 'subpixels', 2, 1)))
-    for au in (['deg'] if q else ['default', 'deg', 'rad']):
+    for au in (['deg', 'rad'] if q else ['default', 'deg', 'rad']):
+        if q and au == 'rad':
+            for mode, n in (('center', 5), ('subpixels', 3)):
+                hs.append((f'ellipse/plumbing/{mode}/{au}', P(h_ellipse_plumbing, mode, n, au)))
+            continue
         hs.append((f'rectangle/center/{au}', P(h_rect, 'center', 1, au, 1.4)))
         hs.append((f'rectangle/subpixels2/{au}', P(h_rect, 'subpixels', 2, au, 1.4)))
         for mode, n in (('center', 5), ('subpixels', 3)):
@@ -458,6 +536,9 @@ def harnesses(tier):
     for n in ([1, 2] if q else [1, 2, 3, 4]):
         hs.append((f'ellipse/kernel-lemma/n={n}', P(h_ellipse_kernel, n)))
     hs.append(('regular-polygon/plumbing', h_regpoly_plumbing))
+    for v in ('plain', 'origin', 'reassign'):
+        hs.append((f'polygon/plumbing/{v}', P(h_polygon_plumbing, v)))
+    hs.append(('modes/compound', h_compound_modes))
     for kind in ('circle', 'ellipse', 'rectangle', 'polygon', 'point', 'line', 'text'):
         hs.append((f'modes/{kind}', P(h_modes, kind)))
     if not q:
